@@ -173,3 +173,23 @@ def _(c):
     c.ensures("result == want", "documented-name-mapping")
     c.no_raise()
     c.modifies()
+
+
+# ---- string literals of the C-like targets: quotes and backslashes escaped, every other printable character verbatim -------------------
+STRINGS = ["plain", "Configuration test", 'say "hi"', "back\\slash", "Ångström café", "µm", "a_b-c", "tab\\tliteral", "ünï©ode ✓"]
+
+
+@spec
+def c_like_literal(v):
+    return '"' + v.replace('\\', '\\\\').replace('"', '\\"') + '"'
+
+
+for cls, nm in ((EXC, "C"), (EXR, "Rust")):
+    @contract(cls + "._parse_scalar", ["C19"], name=f"ExportConfig{nm}._parse_scalar[strings]")
+    def _(c, cls=cls):
+        c.bound = "the listed strings (quotes, backslashes, blanks, non-ASCII letters and symbols)"
+        for v in STRINGS:
+            c.scenario(repr(v), (lambda v: lambda b: dict(args=[b.obj(cls, rename=True), b.new(ST, v), v], env=dict(v=v)))(v))
+        c.ensures("result == c_like_literal(v)", "quoted-with-quotes-and-backslashes-escaped-everything-else-verbatim")
+        c.no_raise()
+        c.modifies()
